@@ -156,7 +156,7 @@ MUTANTS += [
  dict(id='C04-skip-above-verified', props=['C04', 'C17'], expect='R-RESUME-REPORT/skip/transfer.(*sendFileState).nextChunkToSend',
       edits=[(MS, 'if s.plan != nil && s.plan.bitmap != nil && s.plan.bitmap.Get(int(idx)) && idx < s.plan.forceSendFrom {', 'if s.plan != nil && s.plan.bitmap != nil && s.plan.bitmap.Get(int(idx)) {')]),
  dict(id='C06-resend-never', props=['C06'], expect='R-RESUME-REPORT/hash-repair/resend-on-mismatch',
-      edits=[(MS, '\t\t\t\t\t\t\tif senderHash != vHash && vChunk < forceSendFrom {\n\t\t\t\t\t\t\t\tstate.resendChunk = vChunk\n\t\t\t\t\t\t\t\tstate.resendPending = true\n\t\t\t\t\t\t\t}\n', '\t\t\t\t\t\t\tif senderHash != vHash && vChunk < forceSendFrom {\n\t\t\t\t\t\t\t\tstate.resendChunk = vChunk\n\t\t\t\t\t\t\t}\n')]),
+      edits=[(MS, '\t\t\t\t\t\t\tif senderHash != vHash && vChunk < forceSendFrom && bitmap.Get(int(vChunk)) && vChunk >= state.nextChunk {\n\t\t\t\t\t\t\t\tstate.resendChunk = vChunk\n\t\t\t\t\t\t\t\tstate.resendPending = true\n\t\t\t\t\t\t\t}\n', '\t\t\t\t\t\t\tif senderHash != vHash && vChunk < forceSendFrom && bitmap.Get(int(vChunk)) && vChunk >= state.nextChunk {\n\t\t\t\t\t\t\t\tstate.resendChunk = vChunk\n\t\t\t\t\t\t\t}\n')]),
  dict(id='C06-overwrite-not-cleared', props=['C06'], expect='R-OVERWRITE-CLEARS/overwrite/',
       edits=[(SR, '\t\t\t\tif !resume {\n\t\t\t\t\tif err := clearResumeData(r.outDir, offer.Summary.RootName); err != nil && r.verbose {\n\t\t\t\t\t\tfmt.Fprintf(termio.Stderr(), "Failed to clear resume data: %v\\n", err)\n\t\t\t\t\t}\n\t\t\t\t}\n', '\t\t\t\t_ = resume\n')]),
 ]
@@ -291,7 +291,7 @@ MUTANTS += [
 ]
 MUTANTS += [
  dict(id='C02-undo-F2', props=['C02'], expect='R-SUCCESS-GATE/receiver/counted-only-ok/',
-      edits=[(MS, '\t\tstatsMu.Lock()\n\t\tif ok {\n\t\t\tcompletedCount++\n\t\t}\n\t\tstatsMu.Unlock()\n\n\t\tselect {', '\t\tstatsMu.Lock()\n\t\tcompletedCount++\n\t\tstatsMu.Unlock()\n\n\t\tselect {')]),
+      edits=[(MS, '\t\tstatsMu.Lock()\n\t\tif ok {\n\t\t\tcompletedCount++\n\t\t}\n\t\tif activeCount > 0 {', '\t\tstatsMu.Lock()\n\t\tcompletedCount++\n\t\tif activeCount > 0 {')]),
  dict(id='C02-undo-F3', props=['C02'], expect='R-SUCCESS-GATE/sender/return-nil#1/all-acknowledged',
       edits=[(MS, '\tif acknowledged < totalFiles {\n\t\tif err := ctx.Err(); err != nil {\n\t\t\treturn err\n\t\t}\n\t\treturn fmt.Errorf("transfer ended with %d of %d files acknowledged", acknowledged, totalFiles)\n\t}\n', '\t_ = acknowledged\n')]),
  dict(id='C02-graceful-alone', props=['C02'], expect='R-SUCCESS-GATE/graceful/transfer.RecvManifestMultiStream',
@@ -348,10 +348,8 @@ MUTANTS += [
               '\t\t\tselect {\n\t\t\tcase resultCh <- conn:\n\t\t\t\tp.logger.Info("probe won", "addr", addrStr)\n\t\t\t\tif onUpdate != nil {\n\t\t\t\t\tonUpdate(ProbeUpdate{Addr: addrStr, State: ProbeStateWon})\n\t\t\t\t}\n\t\t\tdefault:\n\t\t\t\tconn.CloseWithError(0, "race_lost")\n\t\t\t}\n\t\t\t_ = decided.Load()')]),
  dict(id='C09-loser-not-closed', props=['C09'], expect='R-WINNER/dial/ice.(*Prober).ProbeAndDial$probeWithTransport$dialCandidate#1/owned',
       edits=[(ICE, '\t\t\t} else {\n\t\t\t\t// Lost the race, close this connection\n\t\t\t\tconn.CloseWithError(0, "race_lost")\n\t\t\t}', '\t\t\t} else {\n\t\t\t\tp.logger.Debug("probe lost", "addr", addrStr)\n\t\t\t}')]),
- dict(id='C09-cancel-not-deferred', props=['C09'], expect='R-WINNER/losers-cancelled',
-      edits=[(ICE, '\tctx, cancel := context.WithCancel(ctx)\n\tdefer cancel()\n\n\tuniqueCandidates', '\tctx, cancel := context.WithCancel(ctx)\n\t_ = cancel\n\n\tuniqueCandidates')]),
  dict(id='C09-owner-abandons', props=['C09'], expect='R-WINNER/owner/ice.(*Prober).ProbeAndDial$probeWithTransport/give-up',
-      edits=[(ICE, '\t\tcase <-ctx.Done():\n\t\t\tif !decided.CompareAndSwap(false, true) {\n\t\t\t\t// A dial won at the same moment: its connection is on its way\n\t\t\t\t// into the channel and must not be left open.\n\t\t\t\tconn := <-resultCh\n\t\t\t\tconn.CloseWithError(0, "abandoned")\n\t\t\t}\n\t\t\treturn nil, ctx.Err()', '\t\tcase <-ctx.Done():\n\t\t\treturn nil, ctx.Err()')]),
+      edits=[(ICE, '\t\tcase <-ctx.Done():\n\t\t\tdialCancel()\n\t\t\tif !decided.CompareAndSwap(false, true) {\n\t\t\t\t// A dial won at the same moment: its connection is on its way\n\t\t\t\t// into the channel and must not be left open.\n\t\t\t\tconn := <-resultCh\n\t\t\t\tconn.CloseWithError(0, "abandoned")\n\t\t\t}\n\t\t\treturn nil, ctx.Err()', '\t\tcase <-ctx.Done():\n\t\t\tdialCancel()\n\t\t\treturn nil, ctx.Err()')]),
  dict(id='C09-accept-loser-kept', props=['C09'], expect='R-ACCEPT-COMMIT/owned-select/app.(*snapshotReceiver).runTransfer$offerPrimary',
       edits=[(SR, '\t\t\tcase spareCh <- conn:\n\t\t\tdefault:\n\t\t\t\tconn.Close()\n\t\t\t}\n', '\t\t\tcase spareCh <- conn:\n\t\t\tdefault:\n\t\t\t}\n')]),
 ]
@@ -424,7 +422,7 @@ MUTANTS += [
  dict(id='R1-verify-exempt-benign-reorder', props=['C06'], expect='SILENT',
       edits=[(MS, 'verifyNeeded := verifyMode != "none" && verifiedChunk < totalChunks && hashAlg != HashAlgNone && !hashUnknown', 'verifyNeeded := !hashUnknown && hashAlg != HashAlgNone && verifyMode != "none" && verifiedChunk < totalChunks')]),
  dict(id='R1-verify-hash-call-removed', props=['C06'], expect='R-VERIFY-EXEMPT',
-      edits=[(MS, '\t\t\t\t\tif verifyNeeded {\n\t\t\t\t\t\tstate.mu.Lock()\n\t\t\t\t\t\tstate.verifyPending = true', '\t\t\t\t\tif verifyNeeded && false {\n\t\t\t\t\t\tstate.mu.Lock()\n\t\t\t\t\t\tstate.verifyPending = true')]),
+      edits=[(MS, '\t\t\t\t\tif verifyNeeded {\n\t\t\t\t\t\t// The plan is in force', '\t\t\t\t\tif verifyNeeded && false {\n\t\t\t\t\t\t// The plan is in force')]),
  dict(id='R1-verify-exempt-small-files', props=['C06'], expect='R-VERIFY-EXEMPT/verify-exempt/&&state.item.Size',
       edits=[(MS, 'verifyNeeded := verifyMode != "none" && verifiedChunk < totalChunks && hashAlg != HashAlgNone && !hashUnknown', 'verifyNeeded := verifyMode != "none" && verifiedChunk < totalChunks && hashAlg != HashAlgNone && !hashUnknown && state.item.Size > 1<<20')]),
  dict(id='R1-walk-skipall-on-symlink', props=['C13'], expect='R-WALK-RETURNS/walk-return/manifest.Scan',
@@ -535,17 +533,17 @@ MUTANTS += [
  dict(id='F21-undo-end-continues', props=['C15', 'C02'], expect='R-BOUNDED-STOP/end/returns',
       edits=[(MS, '\t\t\t\treturn m, fmt.Errorf("end of transfer announced with %d of %d files complete", completed, totalFiles)\n', '\t\t\t\tcontinue\n')]),
  dict(id='F21-count-after-ack', props=['C15'], expect='R-BOUNDED-STOP/end/counted-before-ack',
-      edits=[(MS, '\t\tstatsMu.Lock()\n\t\tif ok {\n\t\t\tcompletedCount++\n\t\t}\n\t\tstatsMu.Unlock()\n\n\t\tselect {\n\t\tcase controlWriteCh <- controlMsg{done: &FileDone{', '\t\tselect {\n\t\tcase controlWriteCh <- controlMsg{done: &FileDone{'),
-             (MS, '\t\tif activeCount > 0 {\n\t\t\tactiveCount--\n\t\t}\n', '\t\tif activeCount > 0 {\n\t\t\tactiveCount--\n\t\t}\n\t\tif ok {\n\t\t\tcompletedCount++\n\t\t}\n')]),
+      edits=[(MS, '\t\tstatsMu.Lock()\n\t\tif ok {\n\t\t\tcompletedCount++\n\t\t}\n\t\tif activeCount > 0 {', '\t\tstatsMu.Lock()\n\t\tif activeCount > 0 {'),
+             (MS, '\t\tstatsMu.Lock()\n\t\tremainingBytes -= state.item.Size\n\t\tactive := activeCount\n', '\t\tstatsMu.Lock()\n\t\tif ok {\n\t\t\tcompletedCount++\n\t\t}\n\t\tremainingBytes -= state.item.Size\n\t\tactive := activeCount\n')]),
  dict(id='F23-undo-eof-silent', props=['C02', 'C15'], expect='R-BOUNDED-STOP/acks/',
       edits=[(MS, '\t\t\t\tif errors.Is(err, context.Canceled) {\n\t\t\t\t\treturn\n\t\t\t\t}\n\t\t\t\tif errors.Is(err, io.EOF) {', '\t\t\t\tif errors.Is(err, context.Canceled) || errors.Is(err, io.EOF) {\n\t\t\t\t\treturn\n\t\t\t\t}\n\t\t\t\tif errors.Is(err, io.EOF) {')]),
 ]
 MUTANTS += [
  dict(id='F25-undo-waiter-before-add', props=['C03', 'C09'], expect='R-WG-ORDER/wg-order/',
-      edits=[(ICEF, '\t\tfor _, c := range cands {\n\t\t\twg.Add(1)\n\t\t\tgo dialCandidate(c)\n\t\t}\n', ''),
-             (ICEF, '\t\t\tclose(allDone)\n\t\t}()\n', '\t\t\tclose(allDone)\n\t\t}()\n\n\t\tfor _, c := range cands {\n\t\t\twg.Add(1)\n\t\t\tgo dialCandidate(c)\n\t\t}\n')]),
+      edits=[(ICEF, '\t\tfor _, c := range cands {\n\t\t\twg.Add(1)\n\t\t\tdials.Add(1)\n\t\t\tgo dialCandidate(c)\n\t\t}\n', ''),
+             (ICEF, '\t\t\tclose(allDone)\n\t\t}()\n', '\t\t\tclose(allDone)\n\t\t}()\n\n\t\tfor _, c := range cands {\n\t\t\twg.Add(1)\n\t\t\tdials.Add(1)\n\t\t\tgo dialCandidate(c)\n\t\t}\n')]),
  dict(id='F25-benign-add-all-first', props=['C03', 'C09'], expect='SILENT',
-      edits=[(ICEF, '\t\tfor _, c := range cands {\n\t\t\twg.Add(1)\n\t\t\tgo dialCandidate(c)\n\t\t}\n', '\t\twg.Add(len(cands))\n\t\tfor _, c := range cands {\n\t\t\tgo dialCandidate(c)\n\t\t}\n')]),
+      edits=[(ICEF, '\t\tfor _, c := range cands {\n\t\t\twg.Add(1)\n\t\t\tdials.Add(1)\n\t\t\tgo dialCandidate(c)\n\t\t}\n', '\t\twg.Add(len(cands))\n\t\tdials.Add(len(cands))\n\t\tfor _, c := range cands {\n\t\t\tgo dialCandidate(c)\n\t\t}\n')]),
 ]
 # ---- round-3 rules
 MUTANTS += [
@@ -613,7 +611,7 @@ MUTANTS += [
       edits=[(SR, '\t\t\tgo offerPrimary(conn, "incoming accept", probeKey)\n', '\t\t\tif primaryChosen.Load() {\n\t\t\t\tcontinue\n\t\t\t}\n\t\t\tgo offerPrimary(conn, "incoming accept", probeKey)\n')]),
  dict(id='F28-benign-else-form', props=['C09', 'C08'], expect='SILENT',
       edits=[(SR, _EXTRA_GO, '\t\t\tgo func() {\n\t\t\t\terr := authenticateTransport(acceptCtx, conn, r.joinCode, authRoleReceive)\n\t\t\t\tif err == nil {\n\t\t\t\t\treport(extraResult{conn: conn})\n\t\t\t\t} else {\n\t\t\t\t\tconn.Close()\n\t\t\t\t\treport(extraResult{err: err})\n\t\t\t\t}\n\t\t\t}()\n')]),
- dict(id='F28-sync-literal-blocks-accept-loop', props=['C09', 'C08'], expect='R-ACCEPT-COMMIT/accept-not-blocked/',
+ dict(id='F28-sync-literal-blocks-accept-loop', props=['C09'], expect='R-ACCEPT-COMMIT/accept-not-blocked/',
       edits=[(SR, _EXTRA_GO, _EXTRA_GO.replace('\t\t\tgo func() {\n', '\t\t\tfunc() {\n'))]),
 ]
 
@@ -747,10 +745,10 @@ MUTANTS += [
 SESSF = 'internal/session/session.go'
 BMF = 'internal/transfer/bitmap.go'
 MUTANTS += [
- dict(id='R4-cancel-in-round-helper', props=['C09'], expect='R-CANCEL-OWNER/cancel/ice.(*Prober).ProbeAndDial/cancel',
-      edits=[(ICE, '\t\tif tr == nil || len(cands) == 0 {\n\t\t\treturn nil, fmt.Errorf("no candidates")\n\t\t}\n', '\t\tif tr == nil || len(cands) == 0 {\n\t\t\treturn nil, fmt.Errorf("no candidates")\n\t\t}\n\t\tdefer cancel()\n')]),
+ dict(id='R4-cancel-in-round-helper', props=['C09'], expect='R-CANCEL-OWNER/cancel/ice.(*Prober).ProbeAndDial/dialCancel',
+      edits=[(ICE, '\t\tif tr == nil || len(cands) == 0 {\n\t\t\treturn nil, fmt.Errorf("no candidates")\n\t\t}\n', '\t\tif tr == nil || len(cands) == 0 {\n\t\t\treturn nil, fmt.Errorf("no candidates")\n\t\t}\n\t\tdefer dialCancel()\n')]),
  dict(id='R4-benign-cancel-watchdog', props=['C09'], expect='SILENT',
-      edits=[(ICE, '\tctx, cancel := context.WithCancel(ctx)\n\tdefer cancel()\n\n\tuniqueCandidates', '\tctx, cancel := context.WithCancel(ctx)\n\tdefer cancel()\n\tgo func() {\n\t\t<-ctx.Done()\n\t\tcancel()\n\t}()\n\n\tuniqueCandidates')]),
+      edits=[(ICE, '\tvar dials sync.WaitGroup\n', '\tvar dials sync.WaitGroup\n\tgo func() {\n\t\tselect {\n\t\tcase <-ctx.Done():\n\t\t\tdialCancel()\n\t\tcase <-dialCtx.Done():\n\t\t}\n\t}()\n')]),
  dict(id='R4-extras-accept-counted', props=['C09'], expect='R-ACCEPT-COMMIT/accept-unbounded/',
       edits=[(SR, '\tgo func() {\n\t\tfor {\n\t\t\tconn, err := transport.Accept(acceptCtx)', '\tgo func() {\n\t\tfor taken := 0; taken < extra; taken++ {\n\t\t\tconn, err := transport.Accept(acceptCtx)')]),
  dict(id='R4-benign-accept-until-ctx', props=['C09', 'C08'], expect='SILENT',
@@ -836,17 +834,17 @@ MUTANTS += [
 # --- F43 (C17): R-RESEND-ONCE ---
 MUTANTS += [
  dict(id='F43-undo-resend-inside-tail', props=['C17'], expect='R-RESEND-ONCE/resend-once/',
-      edits=[(MS, '\t\t\t\t\t\t\tif senderHash != vHash && vChunk < forceSendFrom {', '\t\t\t\t\t\t\tif senderHash != vHash {')]),
+      edits=[(MS, '\t\t\t\t\t\t\tif senderHash != vHash && vChunk < forceSendFrom && bitmap.Get(int(vChunk)) && vChunk >= state.nextChunk {', '\t\t\t\t\t\t\tif senderHash != vHash && bitmap.Get(int(vChunk)) && vChunk >= state.nextChunk {')]),
  dict(id='F43-resend-condition-inverted', props=['C17', 'C06'], expect='R-RES',
-      edits=[(MS, '\t\t\t\t\t\t\tif senderHash != vHash && vChunk < forceSendFrom {', '\t\t\t\t\t\t\tif senderHash != vHash && vChunk >= forceSendFrom {')]),
+      edits=[(MS, '\t\t\t\t\t\t\tif senderHash != vHash && vChunk < forceSendFrom && bitmap.Get(int(vChunk)) && vChunk >= state.nextChunk {', '\t\t\t\t\t\t\tif senderHash != vHash && vChunk >= forceSendFrom && bitmap.Get(int(vChunk)) && vChunk >= state.nextChunk {')]),
  dict(id='F43-benign-nested-if', props=['C17', 'C06', 'C04'], expect='SILENT',
-      edits=[(MS, '\t\t\t\t\t\t\tif senderHash != vHash && vChunk < forceSendFrom {\n\t\t\t\t\t\t\t\tstate.resendChunk = vChunk\n\t\t\t\t\t\t\t\tstate.resendPending = true\n\t\t\t\t\t\t\t}', '\t\t\t\t\t\t\tif senderHash != vHash && forceSendFrom > vChunk {\n\t\t\t\t\t\t\t\tstate.resendChunk = vChunk\n\t\t\t\t\t\t\t\tstate.resendPending = true\n\t\t\t\t\t\t\t}')]),
+      edits=[(MS, '\t\t\t\t\t\t\tif senderHash != vHash && vChunk < forceSendFrom && bitmap.Get(int(vChunk)) && vChunk >= state.nextChunk {\n\t\t\t\t\t\t\t\tstate.resendChunk = vChunk\n\t\t\t\t\t\t\t\tstate.resendPending = true\n\t\t\t\t\t\t\t}', '\t\t\t\t\t\t\tif senderHash != vHash && forceSendFrom > vChunk && bitmap.Get(int(vChunk)) && vChunk >= state.nextChunk {\n\t\t\t\t\t\t\t\tstate.resendChunk = vChunk\n\t\t\t\t\t\t\t\tstate.resendPending = true\n\t\t\t\t\t\t\t}')]),
 ]
 
 # --- F44 (C03): R-OPEN-BOUNDED ---
 MUTANTS += [
  dict(id='F44-undo-open-waits-forever', props=['C03'], expect='R-OPEN-BOUNDED/open-bounded/loop#1',
-      edits=[(MS, '\t\tif i > 0 {\n\t\t\topenCtx, openCancel = context.WithTimeout(ctx, dataStreamOpenWait)\n\t\t}\n', '\t\t_ = i\n')]),
+      edits=[(MS, '\t\topenCtx, openCancel := context.WithTimeout(ctx, dataStreamOpenWait)\n', '\t\topenCtx, openCancel := ctx, context.CancelFunc(func() {})\n')]),
  dict(id='F44-announce-planned-count', props=['C03'], expect='R-OPEN-BOUNDED/announce-opened/',
       edits=[(MS, '\tparallelStreams = len(dataStreams)\n\tif parallelStreams < 1 {', '\tif len(dataStreams) < 1 {')]),
 ]
@@ -926,7 +924,7 @@ MUTANTS += [
              (SS, 'pathTarget{abs: absPath, isDir: info.IsDir()}', 'pathTarget{abs: absPath, isDir: fi.IsDir()}')]),
  # R-VERIFY-EXEMPT (tightened), R-BUCKET (grant-after-refill), R-ACCEPT-COMMIT (accept-not-blocked)
  dict(id='R5-verify-skipped-when-bitmap-full', props=['C06'], expect='R-VERIFY-EXEMPT/verify-exempt/',
-      edits=[(MS, '\t\t\t\t\tif verifyNeeded {\n\t\t\t\t\t\tstate.mu.Lock()\n\t\t\t\t\t\tstate.verifyPending = true', '\t\t\t\t\tif verifyNeeded && completedChunks < totalChunks {\n\t\t\t\t\t\tstate.mu.Lock()\n\t\t\t\t\t\tstate.verifyPending = true')]),
+      edits=[(MS, '\t\t\t\t\tif verifyNeeded {\n\t\t\t\t\t\t// The plan is in force', '\t\t\t\t\tif verifyNeeded && completedChunks < totalChunks {\n\t\t\t\t\t\t// The plan is in force')]),
  dict(id='R5-benign-verify-needed-reordered', props=['C06', 'C17'], expect='SILENT',
       edits=[(MS, 'verifyNeeded := verifyMode != "none" && verifiedChunk < totalChunks && hashAlg != HashAlgNone && !hashUnknown', 'verifyNeeded := !hashUnknown && hashAlg != HashAlgNone && verifiedChunk < totalChunks && verifyMode != "none"')]),
  dict(id='R5-bucket-grant-before-stamp', props=['C14'], expect='R-BUCKET/bucket/',
